@@ -7,10 +7,16 @@ p = f"/verif/sa/rules/{prop}.py"
 s = open(p).read()
 blk = open(blockf).read().rstrip("\n") + "\n"
 ci = s.index("def check(ctx):")
-cands = [s.find("\n\ndef ", ci + 10), s.find("\n\nVARIANTS", ci + 10), s.find("\n\nclass ", ci + 10)]
-cands = [c for c in cands if c != -1]
-end = min(cands)
-s = s[:end].rstrip("\n") + "\n" + blk + s[end:]
+lines = s[ci:].split("\n")
+off = len(lines[0]) + 1
+end = None
+for ln in lines[1:]:
+    if ln and not ln.startswith((" ", "\t")):
+        end = ci + off
+        break
+    off += len(ln) + 1
+assert end is not None
+s = s[:end].rstrip("\n") + "\n" + blk + "\n\n" + s[end:]
 if len(sys.argv) > 3:
     v = open(sys.argv[3]).read().rstrip("\n") + "\n"
     assert "VARIANTS = [\n" in s
